@@ -4,7 +4,7 @@ from __future__ import annotations
 
 import ast
 
-from sa.cfg import all_paths_pass, dominators, reachable, reaches, specialize, test_atoms
+from sa.cfg import all_paths_pass, both, dominators, reachable, reaches, specialize, test_atoms
 from sa.db import AnalysisError, bind_args, dotted, src, walk_local
 from sa.flow import defs_reaching, reaching_defs
 from sa.model import contains, enclosing, execute_impl_funcs, superstep_funcs
@@ -35,6 +35,48 @@ def _classify_return(r: ast.Return) -> str | None:
     if isinstance(v, ast.Tuple) and v.elts and isinstance(v.elts[0], ast.Attribute) and isinstance(v.elts[0].value, ast.Name) and v.elts[0].value.id == "ValueSource":
         return v.elts[0].attr
     return None
+
+
+def check_readiness_vs_resolver(ctx, rule: str) -> None:
+    """The sources the readiness test accepts for an input and the sources the resolver can return are the same set
+    (has_default_for of a nested graph node = inner binding or inner signature default = the resolver's inner-bound
+    branch plus its signature-default branch)."""
+    db, rep = ctx.db, ctx.rep
+    gvs = db.func("runners._shared.helpers.get_value_source")
+    gcfg_ = ctx.cfg(gvs)
+    t_bound_inner = [t for t in gcfg_.nodes if t.kind == "test" and "inputs.bound" in src(t.ast) and " in graph.inputs.bound" not in src(t.ast)]
+    hi = db.func("runners._shared.helpers._has_input")
+    ready_src = set()
+    from .common import canon_src
+
+    t = canon_src(hi)
+    if "in state.values" in t:
+        ready_src.add("state")
+    if " in graph.inputs.bound" in t:
+        ready_src.add("graph-bound")
+    if "has_default_for" in t:
+        ready_src.add("node-default")
+    res_src = set()
+    t2 = canon_src(gvs)
+    if "in state.values" in t2:
+        res_src.add("state")
+    if "in graph.inputs.bound" in t2:
+        res_src.add("graph-bound")
+    if "has_signature_default_for" in t2 and t_bound_inner:
+        res_src.add("node-default")  # inner bound (GraphNode) + signature default together cover node.has_default_for
+    if "in provided_values" in t2:
+        res_src.add("provided")
+    missing_in_resolver = ready_src - res_src
+    missing_in_ready = res_src - ready_src - {"provided"}  # provided ⊆ state by R1b
+    ok = not missing_in_resolver and not missing_in_ready and len(ready_src) == 3
+    rep.add(
+        rule,
+        "readiness-vs-resolver",
+        ok,
+        hi.loc(),
+        f"readiness accepts {sorted(ready_src)}; resolver returns {sorted(res_src)} (provided values are in the state by R1b; GraphNode.has_default_for = inner bound or inner default = resolver branches 3b + 4)" if ok else f"sources disagree: only readiness knows {sorted(missing_in_resolver)}, only the resolver knows {sorted(missing_in_ready)}",
+    )
+
 
 
 def run(ctx) -> None:
@@ -121,35 +163,7 @@ def run(ctx) -> None:
         rep.add("C01.R1", f"{impl.qname}:same-mapping", ok, impl.loc(), "the mapping seeded into the state is the one handed to the superstep" if ok else "initialize_state and the superstep receive different value mappings")
 
     # ---- R2 ---------------------------------------------------------------------
-    hi = db.func("runners._shared.helpers._has_input")
-    ready_src = set()
-    t = src(hi.node)
-    if "in state.values" in t:
-        ready_src.add("state")
-    if " in graph.inputs.bound" in t:
-        ready_src.add("graph-bound")
-    if "has_default_for" in t:
-        ready_src.add("node-default")
-    res_src = set()
-    t2 = src(gvs.node)
-    if "in state.values" in t2:
-        res_src.add("state")
-    if "in graph.inputs.bound" in t2:
-        res_src.add("graph-bound")
-    if "has_signature_default_for" in t2 and t_bound_inner:
-        res_src.add("node-default")  # inner bound (GraphNode) + signature default together cover node.has_default_for
-    if "in provided_values" in t2:
-        res_src.add("provided")
-    missing_in_resolver = ready_src - res_src
-    missing_in_ready = res_src - ready_src - {"provided"}  # provided ⊆ state by R1b
-    ok = not missing_in_resolver and not missing_in_ready and len(ready_src) == 3
-    rep.add(
-        "C01.R2",
-        "readiness-vs-resolver",
-        ok,
-        hi.loc(),
-        f"readiness accepts {sorted(ready_src)}; resolver returns {sorted(res_src)} (provided values are in the state by R1b; GraphNode.has_default_for = inner bound or inner default = resolver branches 3b + 4)" if ok else f"sources disagree: only readiness knows {sorted(missing_in_resolver)}, only the resolver knows {sorted(missing_in_ready)}",
-    )
+    check_readiness_vs_resolver(ctx, "C01.R2")
 
     # ---- R3 ---------------------------------------------------------------------
     check_ready_conjunction(ctx, "C01.R3")
@@ -261,6 +275,16 @@ def run(ctx) -> None:
                         bad.append(d)
                 ok = not bad
                 rep.add("C01.R8", f"{m.qname}:result-transformations", ok, f"{m.module.rel}:{bad[0].lineno if bad else c.lineno}", "the result is rebound only when it is the coroutine of an async node function (awaited) or under the node's declared generator mode" if ok else f"'{src(bad[0])[:70]}' transforms the function's result under a test on the *value's* kind ({[src(a) for a, _ in enclosing_facts(bad[0])]}): a node that returns an awaitable/generator object as its value gets a different output than under the other runner")
+                # ... and a declared generator IS materialised: calling a generator function only creates the generator
+                # object — its body (the node's side effects included) runs while it is drained.  Under 'the node is a
+                # generator' every normal path from the call to the return passes a draining rebind of the result.
+                mcfg = ctx.cfg(m)
+                gen_atoms = {src(a): True for t in mcfg.nodes if t.kind == "test" and t.ast is not None for a in test_atoms(t.ast) if src(a).endswith(".is_generator")}
+                if gen_atoms:
+                    drains = [n for n in mcfg.nodes if n.kind == "stmt" and isinstance(n.ast, ast.Assign) and any(isinstance(t_, ast.Name) and t_.id == rv for t_ in n.ast.targets) and n.ast is not st and any(isinstance(x, ast.Name) and x.id == rv for x in ast.walk(n.ast.value))]
+                    callsite = mcfg.node_containing(c)
+                    okd = bool(drains) and bool(callsite) and all(all_paths_pass(cs_, mcfg.exit_return, drains, both(specialize(gen_atoms, mcfg), lambda a, b, l, i: l != "exc")) for cs_ in callsite)
+                    rep.add("C01.R8", f"{m.qname}:declared-generator-drained", okd, f"{m.module.rel}:{c.lineno}", "a declared generator is drained on every path before the outputs are wrapped" if okd else "a node declared as a generator can return without its generator having been drained (e.g. when it has no data outputs): the node is recorded as executed but its body never ran — a side-effect-only generator node silently does nothing")
     if n8 < 2:
         raise AnalysisError(f"only {n8} function executors with a user call found")
 
